@@ -193,11 +193,12 @@ def real_idspec(spec):
     """the id_spec argument denoted by the specification's record (string / list / dict / callable forms)"""
     if spec["kind"] == "default":
         return None                                  # let the importer choose its own default
+    seq = tuple if spec.get("seqform") == "tuple" else list      # the argument FORM is part of the case: sequences as lists or as tuples
     if spec["kind"] == "dict":
-        return {dec(ft): ([_item(i) for i in items] if len(items) != 1 or items[0]["t"] != "attr" else _item(items[0]))
+        return {dec(ft): (seq(_item(i) for i in items) if len(items) != 1 or items[0]["t"] != "attr" or spec.get("seqform") == "tuple" else _item(items[0]))
                 for ft, items in spec["map"]}
-    items = [_item(i) for i in spec["items"]]
-    if len(items) == 1:
+    items = seq(_item(i) for i in spec["items"])
+    if len(items) == 1 and spec.get("seqform") != "tuple":
         return items[0]          # string, ':field:' or callable form
     return items
 
